@@ -17,7 +17,7 @@ CHECKS = {
  "C14": ("exploration", "4 (C14)", "the same cluster with 1-3 replicas: scripts interleave the primary's workload (puts, deletes, batches, multi-key transactions, flushes = log rotations, pauses) with replica joins before/during/after the writes, orderly restarts, process kills, connection resets, partitions and stalled readers; then all faults stop and every replica must scan equal to the reference model's final state within 120 unstalled virtual seconds, and still 5 s later",
          "bounded liveness on the simulator's clock (scheduler-injected stalls excluded); a restarted replica counts as arrived only once its new incarnation has applied the log to the primary's end (it replays from sequence 1); a primary write that gives up on a log rotation (stall-induced, unrelated to replication) abandons the run as inconclusive"),
  "C15": ("exploration", "4 (C15)", "primary with 0-2 healthy replicas and 1-3 scripted misbehaving peers of the replication service (never reads, reads slowly, never acknowledges, nonsense Ack/Nack, Ack/Nack while not reading, vanishes, opens streams in a row) with flow-control windows of 64-256 KB, while 1-3 clients write up to 16 KB values: every primary operation must succeed within 5 virtual seconds, vanished and window-blocked peers must leave Primary.GetReplicaInfo within heartbeat timeout + 2 intervals + 5 s, healthy replicas must still converge",
-         "no scheduler-injected stalls in this check (a parked primary thread defeats kevo's 3 x 10 ms wait for a log rotation with or without replicas); flow control is modelled per stream at gRPC's minimum window or above, never tighter than real gRPC"),
+         "every fourth worker runs a -race binary and reports unsynchronised pairs of accesses whose both sides are kevo code (harness-internal reports are filtered; a report is a may-event as in C07); no scheduler-injected stalls in this check (a parked primary thread defeats kevo's 3 x 10 ms wait for a log rotation with or without replicas); flow control is modelled per stream at gRPC's minimum window or above, never tighter than real gRPC"),
  "C16": ("exploration", "4 (C16)", "a replica engine (read-only flag set, real EngineApplier fed by an applier task) while client tasks call methods taken at run time from the method sets of *engine.EngineFacade and the service server with arguments synthesised from parameter types; the full-scan fingerprint must equal the model of replicated operations after every client call (alternating phases) or at the end (concurrent, exploring the applier's read-only window); calls classified mutating must return a read-only error; GetNodeInfo must be truthful",
          "bypass methods (*Internal), Close, SetReadOnly and GetWAL are excluded as non-client entry points; the replication manager is constructed but not started (no sockets), the flag is set as startReplica sets it"),
  "C19": ("exploration", "4 (C19)", "request programmes over every service method, with transactions interleaved by handle, boundary-size keys/values/batches and finished or unknown handles; handlers called in-process with requests and responses passed through proto.Marshal/Unmarshal; every response compared with the reference map that judges the embedded API; rejected requests must leave data and open handles untouched",
